@@ -298,6 +298,9 @@ fn build_layout(kinds: &[Kind]) -> Layout {
     let mut worktree_of = HashMap::new();
     for s in &starts {
         let a = git_answer(&join(&root, s), None);
+        ORACLE_CALLS.fetch_add(1, std::sync::atomic::Ordering::Relaxed);
+        // the same question is asked again by the cases without ceiling: remember the answer
+        ORACLE.lock().unwrap().get_or_insert_with(HashMap::new).insert((kinds.to_vec(), s.clone(), None), a.clone());
         if let GitAns::Found { git_dir, toplevel: Some(t), .. } = a {
             worktree_of.insert(git_dir, t);
         }
@@ -467,22 +470,24 @@ fn ceilings_for(start: &str, depth: usize, thorough: bool) -> Vec<Option<String>
     for a in &anc {
         v.push(Some(a.clone()));
     }
-    v.push(Some("$R/_store/nomatch".into()));
+    if thorough || start.ends_with("leaf") {
+        v.push(Some("$R/_store/nomatch".into()));
+    }
     if thorough {
         for a in &anc {
             v.push(Some(format!("{a}/")));
-            v.push(Some(format!("{a}/.")));
             v.push(Some(format!("{a}/x/..")));
+            // relative entries are ignored
+            v.push(Some(format!("relative/dir:{a}")));
         }
-        // two ceilings: the deeper one must win regardless of order; non-matching and relative entries are ignored
-        for i in 0..anc.len() {
-            for j in 0..anc.len() {
-                if i != j {
-                    v.push(Some(format!("{}:{}", anc[i], anc[j])));
-                }
-            }
-            v.push(Some(format!("$R/_store/nomatch:{}", anc[i])));
-            v.push(Some(format!("relative/dir:{}", anc[i])));
+        // two ceilings: the deeper one must win regardless of order (adjacent ancestors, and the outermost with the innermost)
+        let mut pairs: Vec<(usize, usize)> = (1..anc.len()).map(|i| (i - 1, i)).collect();
+        if anc.len() > 2 {
+            pairs.push((0, anc.len() - 1));
+        }
+        for (i, j) in pairs {
+            v.push(Some(format!("{}:{}", anc[i], anc[j])));
+            v.push(Some(format!("{}:{}", anc[j], anc[i])));
         }
         // ceilings spelled through a symlink `_l<k>` -> level k: resolved, unless they follow an empty entry
         for k in 1..=depth {
@@ -507,13 +512,16 @@ fn generate(thorough: bool, max_depth: usize, emit: &mut dyn FnMut(Case)) {
     let small = kinds_alphabet(false);
     vkit::enumerate::seqs(&alpha, 0, max_depth, |kinds| {
         // quick: the small alphabet to depth 2; thorough: the full alphabet to depth 2 and the small one to depth 3
-        let tiny = [Plain, Repo, Bare, GitFile];
-        if kinds.len() > 2 && !(if thorough { kinds.iter().all(|k| small.contains(k)) } else { kinds.iter().all(|k| tiny.contains(k)) }) {
+        let deep = [Plain, Repo, Bare, GitFile, Linked, Decoy];
+        let _ = &small;
+        if kinds.len() > 2 && !(thorough && kinds.iter().all(|k| deep.contains(k))) {
             return;
         }
+        // the rich ceiling spellings are explored on layouts of depth <= 2; depth 3 uses the plain ancestor ceilings
+        let rich = thorough && kinds.len() <= 2;
         let starts = starts_of(kinds);
         for start in &starts {
-            for ceil in ceilings_for(start, kinds.len(), thorough) {
+            for ceil in ceilings_for(start, kinds.len(), rich) {
                 let mut forms = vec![Form::Abs, Form::Dot];
                 if !start.is_empty() {
                     forms.push(Form::Rel);
@@ -839,6 +847,23 @@ pub fn run(run: &'static Run) {
         if std::env::var("VERIF_C50_COUNT").is_ok() {
             eprintln!("cases {cases} oracle {} layouts {}", keys.len(), layouts.len());
             return;
+        }
+        // build all layouts up front, in parallel (cases arrive layout by layout, so building lazily would serialize the workers)
+        if !run.is_replay() {
+            let todo: Vec<Vec<Kind>> = layouts.into_iter().collect();
+            let next = std::sync::atomic::AtomicUsize::new(0);
+            templates();
+            std::thread::scope(|sc| {
+                for _ in 0..run.threads.min(16) {
+                    sc.spawn(|| loop {
+                        let i = next.fetch_add(1, std::sync::atomic::Ordering::Relaxed);
+                        let Some(kinds) = todo.get(i) else { break };
+                        if vkit::catch(|| layout(kinds)).is_err() {
+                            break;
+                        }
+                    });
+                }
+            });
         }
     }
     run.sub_with("upwards", vkit::Opts::default().chunk(1024), |emit| generate(thorough, max_depth, emit), evaluate);
